@@ -27,6 +27,16 @@ type c13path struct {
 func c13paths() []c13path {
 	var out []c13path
 	maxN := vk.Pick(2, 3)
+	if !vk.Thorough() {
+		// three nodes in the quick tier too, for the failure-related causes only
+		for _, ws := range [][]int{{2, 3}, {3}, {2}} {
+			for _, c := range []string{"leave", "leave-detected-500ms-apart"} {
+				for _, mp := range []string{"", "m1"} {
+					out = append(out, c13path{3, ws, "w", 1, false, mp, c, "last-words"})
+				}
+			}
+		}
+	}
 	for n := 1; n <= maxN; n++ {
 		for mask := 1; mask < 1<<n; mask++ {
 			var ws []int
@@ -39,8 +49,11 @@ func c13paths() []c13path {
 				for q := int32(0); q <= 2; q++ {
 					for _, r := range []bool{false, true} {
 						for _, mp := range []string{"", "m1"} {
-							for _, c := range []string{"disconnect", "drop", "keepalive", "protocol-error", "leave", "disconnect-then-leave-reordered-gossip"} {
+							for _, c := range []string{"disconnect", "drop", "keepalive", "protocol-error", "leave", "disconnect-then-leave-reordered-gossip", "leave-detected-500ms-apart"} {
 								if strings.Contains(c, "leave") && (n == 1 || (len(ws) == 1 && ws[0] == 1)) {
+									continue
+								}
+								if c == "leave-detected-500ms-apart" && n < 3 {
 									continue
 								}
 								out = append(out, c13path{n, ws, tp, q, r, mp, c, "last-words"})
@@ -101,6 +114,10 @@ func TestC13Wills(t *testing.T) {
 					rep.HarnessError("connect")
 					return
 				}
+				// a client of the OTHER mount point with the dying session's client identifier, connected later, and
+				// (for node failures) a second will-bearing session of the other mount point on the failing node
+				twin := w.NewClient("twin", 1, AckAll)
+				twin.Connect(ConnectOpts{ClientID: "dying", KeepAlive: 600, User: foreign, WillTopic: "w", WillMsg: "foreign-will", WillQos: 1})
 				w.Step()
 				Observe(w, rep)
 				switch p.Cause {
@@ -114,6 +131,8 @@ func TestC13Wills(t *testing.T) {
 					d.SendRaw(EncodeConnect(&packet.Connect{Header: &packet.Header{}, ClientId: []byte("dying"), KeepaliveTimer: 2, Clean: true}))
 				case "leave":
 					w.Leave(1)
+				case "leave-detected-500ms-apart":
+					w.LeaveStaggered(1, 500*time.Millisecond)
 				case "disconnect-then-leave-reordered-gossip":
 					d.Disconnect()
 					w.Step()
@@ -150,6 +169,9 @@ func TestC13Wills(t *testing.T) {
 								viol("c13-will-topic-altered", "watcher %s received the will on topic %q, the client wrote %q", x.c.Name, pk.Topic, p.Topic)
 								return
 							}
+						} else if string(pk.Payload) == "foreign-will" {
+							viol("c13-will-crossed-mount-points", "watcher %s received the will of a session of another mount point: %s", x.c.Name, DescribePacket(pk))
+							return
 						} else {
 							viol("c13-unexpected-message", "watcher %s received %s", x.c.Name, DescribePacket(pk))
 							return
@@ -168,8 +190,24 @@ func TestC13Wills(t *testing.T) {
 					}
 				}
 				if !(strings.Contains(p.Cause, "leave") && fw.Node.ID == 1) {
-					if n := len(fw.Publishes()); n != 0 {
-						viol("c13-will-crossed-mount-points", "a watcher in another mount point received %d message(s): %s", n, fw.InboxDigest())
+					own, other := 0, 0
+					for _, pk := range fw.Publishes() {
+						if string(pk.Payload) == "foreign-will" && string(pk.Topic) == "w" {
+							own++
+						} else {
+							other++
+						}
+					}
+					wantOwn := 0
+					if strings.Contains(p.Cause, "leave") {
+						wantOwn = 1 // the twin lived on the failed node and belongs to the foreign watcher's mount point
+					}
+					if other != 0 {
+						viol("c13-will-crossed-mount-points", "a watcher in another mount point received %d message(s) of the dying session's tenant: %s", other, fw.InboxDigest())
+						return
+					}
+					if own != wantOwn {
+						viol("c13-will-of-other-tenant-session:"+p.Cause, "the other tenant's watcher received its own tenant's will %d time(s), expected %d: %s", own, wantOwn, fw.InboxDigest())
 						return
 					}
 				}
